@@ -173,7 +173,7 @@ impl<'a, K: Kit> J<'a, K> {
 fn steer_sources<K: Kit>(j: &J<K>, tree: &[TNode], q: &[f64], x: &[f64], step: f64) -> (Vec<usize>, Vec<usize>) {
     let ds: Vec<f64> = tree.iter().map(|n| j.d(&n.s, q)).collect();
     let dmin = ds.iter().cloned().fold(f64::INFINITY, f64::min);
-    let tol = len_tol(j.kit, dmin.max(step));
+    let tol = len_tol(j.kit, dmin.max(step).max(4.0 * crate::oracle::mag(j.kit.spec(), &[q, x])));
     let nearest: Vec<usize> = (0..tree.len()).filter(|i| ds[*i] <= dmin + tol).collect();
     let mut ok = vec![];
     for &i in &nearest {
@@ -274,7 +274,7 @@ fn judge_trace<K: Kit>(prop: StepProp, ctx: &Ctx, b: &mut Batch, kit: &K, case: 
                         j.viol(StepProp::C15, &format!("{name}:invalid-node"), format!("node {ni} = {:?} is invalid", nd.s), si);
                     }
                     let l = sp.distance(&a, &c);
-                    let tol = len_tol(kit, l.max(limit));
+                    let tol = len_tol(kit, l.max(limit).max(4.0 * crate::oracle::mag(kit.spec(), &[&tree[p].s, &nd.s])));
                     if !(l <= limit + tol) {
                         j.viol(StepProp::C15, &format!("{name}:edge-too-long"), format!("edge {p}->{ni} has length {l} > {limit}"), si);
                     }
@@ -461,7 +461,7 @@ fn judge_trace<K: Kit>(prop: StepProp, ctx: &Ctx, b: &mut Batch, kit: &K, case: 
                     cur = p;
                     hops += 1;
                 }
-                let tol = len_tol(kit, len.max(1.0)) * (hops as f64 + 1.0);
+                let tol = len_tol(kit, len.max(1.0).max(4.0 * crate::oracle::mag(kit.spec(), &[&t[i].s]))) * (hops as f64 + 1.0);
                 b.count("branch_lengths_checked", 1);
                 if !(len <= t[i].cost + tol) {
                     j.viol(StepProp::C17, "recorded-cost-below-true-branch-length", format!("node {i}: branch length {len} > recorded cost {}", t[i].cost), tr.steps.len());
@@ -497,8 +497,8 @@ fn judge_star<K: Kit>(j: &J<K>, b: &mut Batch, t0: &[TNode], t1: &[TNode], steer
         })
     };
     let dpx = j.d(&t0[p].s, &x.s);
-    let scale = x.cost.abs().max(dpx).max(1.0);
-    let tol = len_tol(j.kit, scale);
+    let scale = x.cost.abs().max(dpx).max(1.0).max(4.0 * crate::oracle::mag(j.kit.spec(), &[&x.s, &t0[p].s]));
+    let tol = len_tol(j.kit, scale) * 2.0;
     b.count("star_extensions", 1);
     // motions created in this step must have been validated in this step
     let step_acc = Accepted::<K>::from_log(j.kit, j.sp, events, &x.s);
@@ -506,7 +506,7 @@ fn judge_star<K: Kit>(j: &J<K>, b: &mut Batch, t0: &[TNode], t1: &[TNode], steer
     let validated = |a: &[f64], c: &[f64]| -> (bool, f64) {
         let (sa, sc) = (j.kit.unflat(a), j.kit.unflat(c));
         let (gap, _, l) = step_acc.max_gap(j.kit, j.sp, &sa, &sc);
-        (gap <= lvs + len_tol(j.kit, l) + 1e-9 * (1.0 + l), gap)
+        (gap <= lvs + len_tol(j.kit, l.max(4.0 * crate::oracle::mag(j.kit.spec(), &[a, c]))) + 1e-9 * (1.0 + l), gap)
     };
     {
         let (ok, gap) = validated(&t0[p].s, &x.s);
@@ -583,7 +583,7 @@ pub fn make_case(r: &mut Sm, idx: usize, prop: StepProp, depth_exhaustive: Optio
         StepProp::C17 => PKind::Star,
         _ => [PKind::Rrt, PKind::Connect, PKind::Star][(idx / 6) % 3],
     };
-    let opts = GenOpts { nonconvex: false, fracs: true, odd_weights: true, max_dim: 3 };
+    let opts = GenOpts { nonconvex: true, fracs: true, odd_weights: true, max_dim: 3 };
     let spec = gen_spec(r, wrap, &opts);
     let host = match prop {
         StepProp::C17 => *r.pick(&[Hostility::Free, Hostility::Free, Hostility::Plain]),
@@ -739,7 +739,10 @@ fn bias_workload(ctx: &Ctx, tier: Tier, seed: u64) -> Value {
         }
         problem.goal.mode = crate::world::GoalMode::Centre;
         let mut params = gen_params(&mut r, &spec, kind, false);
-        params.goal_bias = p;
+        // every other run constructs the planner with another bias and changes the public field
+        // after setup: the configured probability is the one in force when `solve` runs
+        let late = i % 2 == 1;
+        params.goal_bias = if late { if p == 0.5 { 0.1 } else { 0.5 } } else { p };
         // tiny steps keep the tree (and the cost per iteration) small is not possible; bound
         // the tree instead with a small iteration budget for RRT*
         let iters = if kind == PKind::Star { iters_per / 6 } else { iters_per / 2 };
@@ -750,6 +753,9 @@ fn bias_workload(ctx: &Ctx, tier: Tier, seed: u64) -> Value {
             d.log.borrow_mut().budget = 50_000_000;
             let Ok(inst) = d.install(&problem, SampleMode::PlannerRng) else { return };
             if d.setup(inst) != Res::Done { return; }
+            if late {
+                d.set_goal_bias(p);
+            }
             let (g0, u0) = { let l = d.log.borrow(); (l.n_goal_sample, l.n_uniform) };
             let res = d.solve_iters(iters);
             let (g1, u1) = { let l = d.log.borrow(); (l.n_goal_sample, l.n_uniform) };
@@ -761,6 +767,7 @@ fn bias_workload(ctx: &Ctx, tier: Tier, seed: u64) -> Value {
             let mut b = Batch::default();
             b.evaluations += n;
             b.count("bias_runs", 1);
+            if late { b.count("bias_runs_with_bias_changed_after_setup", 1); }
             b.count(&format!("bias_runs[p={p}]"), 1);
             b.count("bias_iterations", n);
             b.max("worst_bias_deviation_over_bound", (frac - p).abs() / eps);
@@ -812,7 +819,7 @@ fn rrt_vs_star(ctx: &Ctx, tier: Tier, seed: u64) -> Value {
                             if let Ok(sp) = kit.build() {
                                 let len = |p: &Vec<Vec<f64>>| (0..p.len() - 1).map(|k| sp.distance(&kit.unflat(&p[k]), &kit.unflat(&p[k + 1]))).sum::<f64>();
                                 let (la, lc) = (len(a), len(c));
-                                let tol = len_tol(&kit, la.max(1.0)) * a.len() as f64;
+                                let tol = len_tol(&kit, la.max(1.0).max(4.0 * crate::oracle::mag(kit.spec(), &[&a[0], a.last().unwrap()]))) * a.len() as f64;
                                 if lc < la - tol { b.count("rrt_star_strictly_shorter", 1); }
                                 if a.len() >= 3 { b.distinct.insert(super::paths::hash_path(c)); }
                                 if !(lc <= la + tol) {
